@@ -33,3 +33,25 @@ func isRepoPkg(path string) bool {
 }
 
 func isHarnessPkg(path string) bool { return isRepoPkg(path) }
+
+// sharedPkg reports whether a package's globals are immutable after
+// initialisation (pure tables) and may be shared by all path interpreters.
+func sharedPkg(path string) bool {
+	if initDenied(path) {
+		return false
+	}
+	switch path {
+	case "unicode", "unicode/utf8", "unicode/utf16", "strconv", "strings", "bytes", "math", "math/bits",
+		"sort", "slices", "io", "bufio", "regexp", "regexp/syntax", "html", "path", "fmt",
+		"golang.org/x/net/html", "golang.org/x/net/html/atom", "cmp", "iter", "maps",
+		"encoding", "encoding/binary", "encoding/base64", "encoding/hex", "encoding/json",
+		"compress/flate", "compress/zlib", "debug/elf", "debug/buildinfo", "debug/dwarf",
+		"hash", "hash/crc32", "hash/adler32", "text/tabwriter", "math/big", "go/token",
+		"golang.org/x/term", "golang.org/x/crypto/ssh/terminal", "container/list", "unique", "weak",
+		"text/template", "text/template/parse", "mime", "archive/tar", "archive/zip", "embed",
+		"encoding/xml", "encoding/gob", "encoding/csv", "encoding/asn1", "encoding/pem",
+		"image", "image/color", "html/template", "go/ast", "go/scanner", "go/parser", "go/format", "go/printer", "go/doc", "go/build":
+		return true
+	}
+	return false
+}
